@@ -462,6 +462,17 @@ func casesText(c *caseCtx) {
 			cand = append(cand, s)
 		}
 		cand = append(cand, "", "e2", "e2e4e5q", "0000", "E2E4", "e7e8", "e7e8Q", "e2é", "e2€", "😀", "e2e4é", "é2e4")
+		// the notation the engine prints (piece letter, hyphen or capture sign, =Q) is not coordinate notation
+		for i, m := range b.Position().PseudoLegalMoves(b.Turn()) {
+			if i > 6 {
+				break
+			}
+			ft := m.From.String() + m.To.String()
+			for _, pre := range []string{"Q", "N", "B", "R", "K", "P"} {
+				cand = append(cand, pre+m.From.String()+"-"+m.To.String(), pre+ft, pre+m.From.String()+"x"+m.To.String())
+			}
+			cand = append(cand, m.From.String()+"-"+m.To.String(), ft+"=Q", ft+"+", ft+"#")
+		}
 		for _, s := range cand {
 			before := boardObs(board.NewZobristTable(0), e.Board(), true)
 			beforeFen := e.Position()
